@@ -233,8 +233,15 @@ class DifferentiationMapper(pymbolic.mapper.RecursiveMapper,
                 self.rec(expr.else_, *args))
 
     def map_common_subexpression_uncached(self, expr, *args):
+        result = self.rec(expr.child, *args)
+        if primitives.is_zero(result):
+            # like IdentityMapper: a vanishing derivative is the constant 0, not
+            # a (truthy) wrapper around it, so that the product and power rules
+            # recognize it
+            return 0
+
         return type(expr)(
-                self.rec(expr.child, *args),
+                result,
                 expr.prefix,
                 expr.scope)
 
